@@ -30,7 +30,19 @@ RULE = ("streams: msg (OSC messages with every value tag ifsbhtdScrmTFNI, 0..12 
         "inside and outside the range, to absent ports, to prefixes and extensions of names, to deep absent paths); "
         "link (ThreadLink of 32..1024 x 2..8 bytes, random op sequences of raw_write / write / writeArray / read / "
         "read_lookahead / hasNext / hasNextLookahead / peak, simulated in the generator so that empty, partly "
-        "filled, wrapped and full rings and oversized writes all occur).  Non-trivial = the RT section did real "
+        "filled, wrapped and full rings and oversized writes all occur; in 30 % of the cases every write is followed "
+        "by reads / look-aheads, so that the ring is read in the state the write left, wrapped included); the varargs "
+        "builders (rtosc_message, ThreadLink::write, RtData::reply / broadcast) also with 32, 33, 40 and 80 "
+        "value-carrying arguments, measuring only and into too small buffers; bundles built IN PLACE (msg stream, 3 per "
+        "case: the element lies at the destination, in its header, where it will land, behind the result, flush with "
+        "the end, across the end, across the start, adjacent before / after; one or two elements, the second outside "
+        "or inside as well; destination exact, larger, too small); hist (histories of 2..8 messages dispatched one "
+        "after the other on ONE object of the static tree, of Leaf::ports, of the ClonePorts table or of a generated "
+        "tree, 70 % of the steps on one focus port, weighted towards the rString ports (16- and 48-byte fields, values "
+        "of 0..200 characters), the option ports (integer, char, known symbol, unknown symbols of 0..300 characters "
+        "with '_' and blanks) and the array ports (other elements of the same array); read-backs; wrong argument "
+        "types; addresses of up to 400 characters and 60 levels that match nothing below the rRecur* ports; with "
+        "location tracking through the nested tables).  Non-trivial = the RT section did real "
         "work: a callback replied or broadcast, a port matched, a message was rebuilt or a ring read returned a "
         "message.")
 TRUSTED = ["the C03 translator: g++ 12.2 -O2 -g -DNDEBUG -fcallgraph-info (.ci files), tools/callgraph.py, its "
